@@ -491,7 +491,7 @@ fn main() {
                     11 => call_ls("write_lines", &a, &["one", "", "two"]),
                     12 => call("remove", &a, ""),
                     13 => call("remove_all", &a, ""),
-                    14 => call_m("chmod", &a, [0o755, 0o700, 0o644, 0o600, 0o444, 0o500, 0o1777][rng.gen_range(0..7)], 0),
+                    14 => call_m("chmod", &a, [0o755, 0o700, 0o644, 0o600, 0o444, 0o500, 0o1777, 0o777, 0o4755][rng.gen_range(0..9)], 0),
                     15 => call_b("chmod_b", &a, "", 0, 0, ["f:u+x", "a:go-w", "d:a=rx,f:a=r"][rng.gen_range(0..3)], ["s", "sR"][rng.gen_range(0..2)]),
                     16 | 17 => call("move_p", &a, &b),
                     18 => call("copy", &a, &b),
@@ -604,6 +604,10 @@ fn main() {
         calls.push(call("remove_all", p, ""));
         calls.push(call_m("chmod", p, 0o500, 0));
         calls.push(call_m("chmod", p, 0o600, 0));      // takes the search bit off directories: an unprivileged caller must not lock itself out half way
+        // special bits on top of exactly the permission bits the entry already has (directories 0o755, files 0o644 in these trees):
+        // a shortcut that compares only the rwx bits would skip the call
+        calls.push(call_m("chmod", p, 0o1755, 0));
+        calls.push(call_m("chmod", p, 0o4644, 0));
         calls.push(call_b("chmod_b", p, "", 0, 0, "f:u+x,d:go-rx", "sR"));
         calls.push(call_b("chown_b", p, "", uid, gid, "", "oR"));
         for q in [
